@@ -128,8 +128,11 @@ impl MemoryManager {
 
     pub fn remove_token(&self, token: *const MemToken) {
         self.update_token(token);
-        let mut inner = self.mem_manager.lock().unwrap();
-        inner.remove_token(token);
+        {
+            let mut inner = self.mem_manager.lock().unwrap();
+            inner.remove_token(token);
+        }
+        // free() can only start or finish a reclamation cycle when it gets the manager lock itself
         self.free(token as *mut MemToken, 1);
     }
 
